@@ -6,6 +6,7 @@ def run(ctx):
     tasks = gencheck.tasks_for(ctx.tier, "C01")
     ctx.pmap("mzcheck.checks.gencheck", "explore_task", tasks)
     ctx.pmap("mzcheck.checks.gencheck", "sequence_task", gencheck.sequence_tasks(ctx.tier, "C01"), fresh=True)
+    ctx.pmap("mzcheck.checks.gencheck", "alias_task", [dict(which="C01")])
     finish(ctx, tasks)
 
 
